@@ -110,7 +110,8 @@ def design_checks(chk, tier):
                         timeout=600, expect_violation=True)
         if r["violated"] != want:
             raise MachineryError("deviation %s: expected TLC to violate %s, got %s" % (dev, want, r["violated"]))
-        chk.add_tlc(r)
+        # (search stops at the counterexample: state counts vary with worker timing, keep them out of the totals)
+        chk.cov.setdefault("sensitivity", []).append({"deviation": dev, "violates": want})
     # vacuity: the antecedents / interesting corners are reachable
     for wname in (WITNESSES if thorough else WITNESSES[:3]):
         c = constants(intervals=(7, 30), retries=(0, 1, 3), die=(0, 4), modes=("repeatingProducer", "earlierStage"), durations=(2, 6), notify_by=12)
